@@ -320,6 +320,13 @@ func c03Run(c *core.Ctx) {
 				c.Eval(fmt.Sprintf("E1x|%s|%v", it.Name, acc))
 				c.Count("xpath_expression_schemas", 1)
 				if sig != "" {
+					// find the input that fails for the replay file
+					for _, in := range inputs {
+						if s2, _, _ := c03Schema(text, it.Name, []string{in}); s2 == sig {
+							cs.InputS = in
+							break
+						}
+					}
 					report(sig, detail+"\nxpath: "+cs.Note, cs)
 				}
 			}
@@ -645,6 +652,12 @@ func c03Run(c *core.Ctx) {
 				c.Eval(fmt.Sprintf("E1r|%s|%v", it.Name, acc))
 				c.Count("regex_schemas", 1)
 				if sig != "" {
+					for _, in := range inputs {
+						if s2, _, _ := c03Schema(text, it.Name, []string{in}); s2 == sig {
+							cs.InputS = in
+							break
+						}
+					}
 					report(sig, detail+"\npattern: "+cs.Note, cs)
 				}
 			}
